@@ -544,7 +544,7 @@ def _pure_cond(e, ok_names):
 
 def _is_boolish(e):
     return isinstance(e, (ast.BoolOp, ast.Compare)) or (isinstance(e, ast.UnaryOp) and isinstance(e.op, ast.Not)) or \
-        (isinstance(e, ast.Call) and ((isinstance(e.func, ast.Name) and e.func.id in ("isinstance", "issubclass", "callable", "hasattr")) or
+        (isinstance(e, ast.Call) and ((isinstance(e.func, ast.Name) and e.func.id in ("isinstance", "issubclass", "callable", "hasattr", "cmatch", "cmatch2", "safe_eq", "in_map")) or
                                       (isinstance(e.func, ast.Attribute) and e.func.attr.startswith(("is_", "has_")))))
 
 
